@@ -30,6 +30,7 @@ KINDS = [
     ('props.C13', 'transaction_harness', {'max_len': 4}, False),
     ('props.C08', 'interval_join_harness', {'n': 4, 'iters': 2}, True),
     ('props.C10', 'iteration_end_harness', {'rounds': 3}, False),
+    ('props.C15', 'iterator_source_harness', {'n': 3}, False),
     # harnesses whose native replay runs a whole job through the public API (or has no element-wise output): the
     # oracle must accept the real build on every sampled input
     ('props.C09', 'route_harness', {'nroutes': 3, 'mode': 'fixed', 'bsize': 2, 'iters': 2, 'max_len': [3, 2]}, None),
